@@ -366,6 +366,26 @@ def extends_builtin(class_: ast.Class) -> bool:
     return ret
 
 
+def _nest_dotted_modification(arg: ast.ClassModificationArgument) -> None:
+    """
+    A modification that reaches an elementary symbol with name parts left over,
+    e.g. "x.start = 1", means "x(start = 1)": rewrite it to the nested form so
+    that the remaining name is treated as the attribute it is, not as the value.
+    """
+    component = arg.value.component
+    if not component.child:
+        return
+    inner = ast.ClassModificationArgument()
+    inner.scope = arg.scope
+    inner.redeclare = arg.redeclare
+    inner.value = ast.ElementModification(
+        component=component.child[0], modifications=arg.value.modifications
+    )
+    _nest_dotted_modification(inner)
+    component.child = []
+    arg.value.modifications = [ast.ClassModification(arguments=[inner])]
+
+
 def build_instance_tree(
     orig_class: Union[ast.Class, ast.InstanceClass], modification_environment=None, parent=None
 ) -> ast.InstanceClass:
@@ -490,6 +510,7 @@ def build_instance_tree(
             for arg in sym_arguments:
                 if arg.value.component.indices != [[None]]:
                     raise Exception("Subscripting modifiers is not allowed.")
+                _nest_dotted_modification(arg)
                 for el_arg in arg.value.modifications:
                     # Behavior is different depending on whether the value is
                     # being set (which is an unnamed field not explicitly
@@ -543,6 +564,7 @@ def build_instance_tree(
                     raise Exception("Subscripting modifiers is not allowed.")
 
                 if inheriting_from_builtin:
+                    _nest_dotted_modification(arg)
                     for el_arg in arg.value.modifications:
                         if not isinstance(el_arg, ast.ClassModification):
                             # If the value is being set, we make a new class
